@@ -139,6 +139,15 @@ struct StringRun {
             const U t = text(); TmpStr x(t, R.mm); const size_t p2 = R.uarg("j") % (t.size() + 1), c2 = std::min<size_t>(R.uarg("m") % 10, t.size() - p2);
             post.insert(pos, t, p2, c2); R.call([&] { a->insert((sz)pos, x.s, (sz)p2, (sz)c2); }); after(two(pre, post));
         }
+        // characters of the string itself given by pointer (std::basic_string allows the source to lie inside the string)
+        else if (o == "insert_self_ptr") { if (!n || n > 256) return skip(); const size_t p2 = R.uarg("j") % n, c2 = std::min<size_t>(R.uarg("m") % 10, n - p2); post.insert(pos, pre, p2, c2);
+            R.kind = a->capacity() >= n + c2 ? "insert_self_ptr-in-capacity" : "insert_self_ptr-reallocating";
+            R.call([&] { a->insert((sz)pos, a->c_str() + p2, (sz)c2); }); after(two(pre, post)); }
+        else if (o == "append_self_ptr") { if (!n || n > 256) return skip(); const size_t p2 = R.uarg("j") % n, c2 = std::min<size_t>(R.uarg("m") % 10, n - p2); post.append(pre, p2, c2);
+            R.kind = a->capacity() >= n + c2 ? "append_self_ptr-in-capacity" : "append_self_ptr-reallocating";
+            R.call([&] { a->append(a->c_str() + p2, (sz)c2); }); after(two(pre, post)); }
+        else if (o == "assign_self_ptr") { if (!n) return skip(); const size_t p2 = R.uarg("j") % n, c2 = std::min<size_t>(R.uarg("m") % 10, n - p2); post = pre.substr(p2, c2);
+            R.call([&] { a->assign(a->c_str() + p2, (sz)c2); }); after(two(pre, post)); }
         else if (o == "insert_self") { if (n > 256) return skip(); post.insert(pos, pre); R.call([&] { S& alias = *a; a->insert((sz)pos, alias); }); after(two(pre, post)); }
         else if (o == "insert_fill") { const size_t c = R.uarg("m") % 8; post.insert(pos, c, ch()); R.call([&] { a->insert((sz)pos, (sz)c, ch()); }); after(three(pre, post)); }
         else if (o == "insert_it_char") {
@@ -217,10 +226,10 @@ struct StringRun {
         }
         // ------------------------------------------------------------------ queries
         else if (o == "compare") {
-            const U t = text(); TmpStr x(t, R.mm); int how = (int)(R.uarg("how") % 8);
-            if (nul && how != 0 && how != 2 && how != 3 && how != 6 && how != 7) return skip();      // the pointer forms end at the first null character by definition
+            const U t = text(); TmpStr x(t, R.mm); int how = (int)(R.uarg("how") % 10);
+            if (nul && how != 0 && how != 2 && how != 3 && how != 6 && how != 7 && how != 8 && how != 9) return skip();      // the pointer forms end at the first null character by definition
             const size_t p2 = R.uarg("j") % (t.size() + 1), c2 = std::min<size_t>(R.uarg("m") % 10, t.size() - p2);
-            int got = 0, want = 0; static const char* names[] = { "compare-string", "compare-pointer", "compare-sub-string", "compare-sub-sub", "compare-sub-pointer-default-count", "compare-sub-pointer-count", "compare-sub-npos-string", "compare-sub-overlong-string" };
+            int got = 0, want = 0; static const char* names[] = { "compare-string", "compare-pointer", "compare-sub-string", "compare-sub-sub", "compare-sub-pointer-default-count", "compare-sub-pointer-count", "compare-sub-npos-string", "compare-sub-overlong-string", "compare-sub-sub-overlong", "compare-sub-sub-npos" };
             R.kind = names[how];
             switch (how) {
             case 0: want = ma.compare(t); R.call([&] { got = a->compare(x.s); }); break;
@@ -230,6 +239,8 @@ struct StringRun {
             case 4: want = ma.compare(pos, cnt, t.c_str()); R.call([&] { got = a->compare((sz)pos, (sz)cnt, x.s.c_str()); }); break;
             case 6: want = ma.compare(pos, U::npos, t); R.call([&] { got = a->compare((sz)pos, S::npos, x.s); }); break;
             case 7: want = ma.compare(pos, cnt + 3, t); R.call([&] { got = a->compare((sz)pos, (sz)(cnt + 3), x.s); }); break;
+            case 8: want = ma.compare(pos, cnt, t, p2, c2 + 100); R.call([&] { got = a->compare((sz)pos, (sz)cnt, x.s, (sz)p2, (sz)(c2 + 100)); }); break;      /* the second count reaches past the end of the other string */
+            case 9: want = ma.compare(pos, cnt, t, p2, U::npos); R.call([&] { got = a->compare((sz)pos, (sz)cnt, x.s, (sz)p2, S::npos); }); break;
             default: want = ma.compare(pos, cnt, t.c_str(), c2); R.call([&] { got = a->compare((sz)pos, (sz)cnt, x.s.c_str(), (sz)c2); }); break;
             }
             if (!R.threw && sgn(got) != sgn(want)) R.bad("compare-sign", std::string(names[how]) + " gives " + std::to_string(got) + ", std::u16string gives " + std::to_string(want) + " for " + show(ma) + " [" + std::to_string(pos) + "," + std::to_string(cnt) + "] vs " + show(t));
